@@ -5,6 +5,7 @@ import (
 	"fmt"
 	"net/url"
 	"strconv"
+	"strings"
 
 	"context"
 
@@ -253,11 +254,40 @@ func (sel *Selection) Constrain(params string) (*Selection, error) {
 		return nil, err
 	}
 	copy := *sel
-	if err = BuildConstraints(&copy, dummy.Query()); err != nil {
+	query, err := parseQueryParams(dummy.RawQuery)
+	if err != nil {
+		return nil, err
+	}
+	if err = BuildConstraints(&copy, query); err != nil {
 		return nil, err
 	}
 	copy.Context = copy.Constraints.ContextConstraint(sel)
 	return &copy, nil
+}
+
+// parseQueryParams decodes url query parameters.  Unlike url.URL.Query() this keeps
+// parameters whose value holds a ';' (alternatives in fields, fc.xfields and fc.range
+// expressions) and reports malformed escapes instead of dropping the parameter.
+func parseQueryParams(rawQuery string) (map[string][]string, error) {
+	params := make(map[string][]string)
+	for _, pair := range strings.Split(rawQuery, "&") {
+		if pair == "" {
+			continue
+		}
+		key, value := pair, ""
+		if eq := strings.IndexByte(pair, '='); eq >= 0 {
+			key, value = pair[:eq], pair[eq+1:]
+		}
+		key, err := url.QueryUnescape(key)
+		if err != nil {
+			return nil, fmt.Errorf("%w. %s", fc.BadRequestError, err)
+		}
+		if value, err = url.QueryUnescape(value); err != nil {
+			return nil, fmt.Errorf("%w. %s", fc.BadRequestError, err)
+		}
+		params[key] = append(params[key], value)
+	}
+	return params, nil
 }
 
 var errMaxDepthZeroNotAllowed = errors.New("depth zero is not allowed")
